@@ -60,6 +60,11 @@ pub struct CompPlan {
     /// is compared (0 = no pre-walk; the per-module reference iterators are always fresh)
     #[serde(default)]
     pub prewalk: u32,
+    /// modules (indices into `modules`) that are not part of the component's bytes: they are parsed on
+    /// their own and handed to `Component::add_module` right after the component is parsed, before
+    /// anything else happens; in module order they come after the modules of the layout
+    #[serde(default)]
+    pub added: Vec<u32>,
 }
 
 /// (params, results) of the function import `imp` of `m` if a body of constants can be built for it
@@ -134,7 +139,7 @@ fn section(id: u8, payload: &[u8], out: &mut Vec<u8>) {
 impl CompPlan {
     /// module specs in the order the component iterator numbers them
     pub fn module_order(&self) -> Vec<u32> {
-        self.layout.iter().filter_map(|p| if let Piece::Module(i) = p { Some(*i) } else { None }).collect()
+        self.layout.iter().filter_map(|p| if let Piece::Module(i) = p { Some(*i) } else { None }).chain(self.added.iter().copied()).collect()
     }
     pub fn to_bytes(&self) -> Vec<u8> {
         let mut out = crate::c03::COMPONENT_HEADER.to_vec();
@@ -200,6 +205,15 @@ pub fn gen_c26_for(property: &str, run_seed: u64) -> Result<Scenario, String> {
     }
     if rng.chance(1, 3) {
         plan.layout.push(Piece::Custom(rng.bytes(3)));
+    }
+    if rng.chance(1, 4) {
+        // one or two modules that join the component through add_module (behind whatever the layout ends in)
+        for _ in 0..rng.range(1, 3) {
+            let m = gen_base(&mut rng, &p, &mut st);
+            validate(&m.to_bytes()).map_err(|e| format!("generated module does not validate: {e}"))?;
+            plan.added.push(plan.modules.len() as u32);
+            plan.modules.push(m);
+        }
     }
     let order = plan.module_order();
     // skip map
@@ -402,6 +416,24 @@ fn top_level_customs(comp_bytes: &[u8]) -> Vec<Vec<u8>> {
 }
 
 pub fn judge_c26(sc: &Scenario) -> (Judged, RunResult) {
+    let mut out = String::new();
+    judge_c26_out(sc, &mut out)
+}
+
+/// What the component side of a plan produced under the current hash keys, as one line
+/// (`bytes <hex>` / `panic <signature>` / `none`): the outcome C04 compares across hash seeds and
+/// across fresh processes of the unhooked build.
+pub fn comp_outcome(sc: &Scenario) -> String {
+    let mut out = String::new();
+    let (j, _) = judge_c26_out(sc, &mut out);
+    match j.harness_error {
+        Some(e) => format!("harness {e}"),
+        None if out.is_empty() => "none".into(),
+        None => out,
+    }
+}
+
+fn judge_c26_out(sc: &Scenario, out: &mut String) -> (Judged, RunResult) {
     let dummy = crate::exec::run(&Scenario {
         tail: vec![],
         ..Default::default()
@@ -575,8 +607,18 @@ pub fn judge_c26(sc: &Scenario) -> (Judged, RunResult) {
         Ok(Err(e)) => return herr(format!("library refused generated component: {e}")),
         Err(p) => return herr(format!("component parse panicked: {}", p.sig())),
     };
-    if comp.modules.len() != order.len() {
-        return herr(format!("component has {} modules, expected {}", comp.modules.len(), order.len()));
+    if comp.modules.len() + plan.added.len() != order.len() {
+        return herr(format!("component has {} modules, expected {}", comp.modules.len(), order.len() - plan.added.len()));
+    }
+    for k in order.len() - plan.added.len()..order.len() {
+        let m = match Module::parse(&mod_bytes[k], false) {
+            Ok(m) => m,
+            Err(e) => return herr(format!("library refused generated module: {e}")),
+        };
+        if let Err(p) = guarded(|| comp.add_module(m)) {
+            owned.push(Mismatch::new("comp_iterator_panic", &format!("add_module:{}", p.sig()), format!("{:?}", p)));
+            return (Judged { owned, others: vec![], harness_error: None }, dummy);
+        }
     }
     {
         // the same pre-ops through the component-level entry points, module by module as on the twin side
@@ -707,6 +749,7 @@ pub fn judge_c26(sc: &Scenario) -> (Judged, RunResult) {
             } else {
                 "nothing_to_visit"
             };
+            *out = format!("panic {}", p.sig());
             owned.push(Mismatch::new("comp_iterator_panic", &format!("{shape}:{}", p.sig()), format!("{:?}", p)));
             return (
                 Judged {
@@ -735,7 +778,19 @@ pub fn judge_c26(sc: &Scenario) -> (Judged, RunResult) {
         ));
     }
     // ---------------- encodings
-    match guarded(|| comp.encode()) {
+    let enc = guarded(|| comp.encode());
+    *out = match &enc {
+        Err(p) => format!("panic {}", p.sig()),
+        Ok(b) => {
+            let mut s = String::with_capacity(6 + 2 * b.len());
+            s.push_str("bytes ");
+            for x in b {
+                s.push_str(&format!("{:02x}", x));
+            }
+            s
+        }
+    };
+    match enc {
         Err(p) => owned.push(Mismatch::new("comp_vs_module_bytes", &format!("encode_panic:{}", p.sig()), format!("{:?}", p))),
         Ok(bytes) => match extract_modules(&bytes) {
             Err(e) => owned.push(Mismatch::new("comp_vs_module_bytes", "unparseable", e)),
